@@ -15,6 +15,7 @@ import (
 	"strconv"
 	"strings"
 	"time"
+	"unicode/utf8"
 )
 
 // FilterFunc is a function that can be used as a filter
@@ -1135,7 +1136,9 @@ func length(v interface{}) (int, error) {
 
 	switch value := v.(type) {
 	case string:
-		return len(value), nil
+		// The length of a string is its number of characters, which is what slice, first,
+		// last and a for loop over the string see - not its number of bytes
+		return utf8.RuneCountInString(value), nil
 	case []interface{}:
 		return len(value), nil
 	case map[string]interface{}:
@@ -1145,7 +1148,9 @@ func length(v interface{}) (int, error) {
 	// Use reflection for other types
 	rv := reflect.ValueOf(v)
 	switch rv.Kind() {
-	case reflect.Array, reflect.Slice, reflect.Map, reflect.String:
+	case reflect.String:
+		return utf8.RuneCountInString(rv.String()), nil
+	case reflect.Array, reflect.Slice, reflect.Map:
 		return rv.Len(), nil
 	}
 
